@@ -17,6 +17,8 @@ CNT = re.compile(r'^continue_(?:_(\d+))?$')
 
 
 def flag_of(name):
+    if name == 'do_return':
+        return 2
     m = BRK.match(name)
     if m:
         return 3 * int(m.group(1) or 0)
@@ -56,6 +58,15 @@ class Exporter(object):
         if len(body) == 1 and isinstance(body[0], ast.With) and 'FunctionScope' in unparse(body[0].items[0]):
             body = body[0].body
         return body
+
+    def strip_return_frame(self, stmts):
+        """the function-level frame the return pass adds: `do_return = False`, `retval_ = ag__.UndefinedReturnValue()`
+        in front and `return fscope.ret(retval_, do_return)` at the end -> (inner statements, present?)"""
+        if len(stmts) >= 3 and unparse(stmts[0]) == 'do_return = False' \
+                and unparse(stmts[1]) == 'retval_ = ag__.UndefinedReturnValue()' \
+                and unparse(stmts[-1]).startswith('return fscope.ret(retval_, do_return)'):
+            return stmts[2:-1], True
+        return stmts, False
 
     def block(self, stmts):
         out = 'BNil'
@@ -98,6 +109,19 @@ class Exporter(object):
                     raise Unsupported('extra loop test ' + unparse(extra))
                 it = 'CAndNot %s (%s)' % (m.group(1), it)
             return 'SWhile (%s) (%s) (%s)' % (it, self.block(s.body), self.block(s.orelse))
+        if isinstance(s, ast.Try):
+            hs = 'HNil'
+            for h in reversed(s.handlers):
+                hs = 'HCons (%s) (%s)' % (self.block(h.body), hs)
+            return 'STry (%s) (%s) (%s) (%s)' % (self.block(s.body), hs, self.block(s.orelse), self.block(s.finalbody))
+        if isinstance(s, ast.With):
+            return 'SWith %d (%s)' % (self.label('with ' + ', '.join(unparse(i) for i in s.items)), self.block(s.body))
+        if isinstance(s, ast.Raise):
+            return 'SRaise %d' % (0 if s.exc is None else self.label(unparse(s)))
+        if isinstance(s, ast.Assign) and len(s.targets) == 1 and isinstance(s.targets[0], ast.Name) \
+                and s.targets[0].id == 'retval_':
+            v = unparse(s.value)
+            return 'SAtom %d' % self.label('return' if v == 'None' else 'return ' + v)
         if isinstance(s, ast.Break):
             return 'SBreak'
         if isinstance(s, ast.Continue):
